@@ -52,7 +52,7 @@ LEVEL = "model_checking"
 # root causes switched ON in the faithful transcription of the tree under test (Infer.tla, RC_*).
 # When a root cause is repaired in the repository, remove it here: the check then demands the repaired
 # behaviour from the model as well (until then the repaired tree only shows up as SPEC-DRIFT).
-LEGACY = ["set_node", "unsubscriptable", "meta_dunder", "marker", "duck", "counter_val"]
+LEGACY = ["duck"]          # root causes still present in the tree under test (the others were repaired by fix: commits)
 # self-tests of proposed fixes / code mutants:  C20_LEGACY="marker,duck" ./check C20   (empty string = intended design);
 # C20_UNIVERSE=nv replays the tiny universe of the non-vacuity runs instead of the tier's
 if "C20_LEGACY" in os.environ:
@@ -1073,6 +1073,7 @@ def run(rep, tier, seed):
                 if len(rep.samples) < 8 and r["j"] and r["j"] % 997 == 0:
                     rep.sample({"object": r["obj"], "agreements": r["agree"], "issues": [i["key"] for i in r["issues"]]})
         rep.cov["rows_replayed"] = sum(len(c) for c in results)
+        rep.add("traces_validated_against_impl", rep.cov["rows_replayed"])
         rep.cov["rows_predicted_failing_by_faithful_model"] = n_pred_fail
         rep.cov["rows_failing_on_real_code"] = n_real_fail
         rep.cov["root_causes_exhibited_by_model"] = seen_causes
